@@ -47,6 +47,14 @@ operation at the same place answered differently, or `no-touch@<function>`; `P` 
                                     template renders both with them set to nil and to ''
                                     ("a missing variable behaves as nil/empty")
 
+  P-undefined-error-under-<layers|json-hook|...>   P raised UndefinedError with the data
+                                    delivered through other layers (a variable present in
+                                    any layer exists) / with a documented filter hook, but
+                                    not with plain render arguments; key names the layer,
+                                    loader and load number
+  default-differs-under-<...>       the default policy's outcome differs from the plain
+                                    delivery / unconfigured filter
+
   from the documentation of the undefined types (what "uses" means), reported under
   their own keys so they can be told apart
   P-raises-in-default-filter        UndefinedError came from inside the `default` filter
@@ -126,6 +134,14 @@ RULE = (
     "sibling; (k) the bottom of the deletion lattice: 34 programs whose every name is bound "
     "by a tag from literals / ranges rendered with NO data at all, and an all-data-deleted "
     "variant of every corpus case and seeded program; "
+    "(l) WHERE the data comes from: ~3400 of the programs above and every corpus case with "
+    "data again with the referenced variables split (10 patterns) over Environment "
+    "globals, template globals (get_template(globals=)), loader matter and a "
+    "make_globals() override, the root template loaded BY NAME through DictLoader / "
+    "CachingDictLoader once, twice or three times, sync and async, compared with the plain "
+    "delivery; (m) configured filters: JSON(default=hook raising TypeError), the "
+    "translation filters with an identity catalog passed as default_translations, the "
+    "babel filters constructed with explicit default arguments; "
     "(i) `empty` / `blank` as filter and keyword arguments (ordinary, absent variables "
     "there); "
     "sync and async; each case = one policy triple (Undefined, StrictUndefined, "
@@ -499,6 +515,69 @@ def install_hook() -> None:
 
 
 # ---------------------------------------------------------------------------
+# delivery layers and configured filters
+# ---------------------------------------------------------------------------
+
+
+def _json_hook(obj: Any) -> Any:
+    """A json `default` hook as documented for json.dumps: it knows nothing."""
+    raise TypeError(f"Object of type {type(obj).__name__} is not JSON serializable")
+
+
+class IdentityTranslations:
+    """A translations catalog (gettext API) that translates every message to itself."""
+
+    def gettext(self, message: str) -> str:
+        return message
+
+    def ngettext(self, singular: str, plural: str, n: int) -> str:
+        return singular if n == 1 else plural
+
+    def pgettext(self, context: str, message: str) -> str:  # noqa: ARG002
+        return message
+
+    def npgettext(self, context: str, singular: str, plural: str, n: int) -> str:  # noqa: ARG002
+        return singular if n == 1 else plural
+
+
+def _configure(env: Any, cfg: dict[str, Any]) -> None:
+    kind = cfg.get("kind")
+    if kind == "json-hook":
+        from liquid2.builtin.filters.misc import JSON
+
+        env.filters["json"] = JSON(default=_json_hook)
+    elif kind == "translations":
+        from liquid2.builtin import GetText
+        from liquid2.builtin import NGetText
+        from liquid2.builtin import NPGetText
+        from liquid2.builtin import PGetText
+        from liquid2.builtin import Translate
+
+        cat = IdentityTranslations()
+        for cls in (GetText, NGetText, NPGetText, PGetText, Translate):
+            env.filters[cls.name] = cls(default_translations=cat, message_interpolation=True)
+    elif kind == "babel-args":
+        from liquid2.builtin.filters.babel import Currency
+        from liquid2.builtin.filters.babel import DateTime
+        from liquid2.builtin.filters.babel import Number
+        from liquid2.builtin.filters.babel import Unit
+
+        env.filters["currency"] = Currency(default_currency_code="USD", default_locale="en_US")
+        env.filters["money"] = Currency(default_input_locale="en_US")
+        env.filters["decimal"] = Number(default_locale="en_US")
+        env.filters["datetime"] = DateTime(default_locale="en_US")
+        env.filters["unit"] = Unit(default_locale="en_US")
+
+
+def _cfg_label(cfg: dict[str, Any]) -> str:
+    if cfg.get("kind") == "layers":
+        parts = [f"{k}={sorted(cfg[k])}" for k in ("env", "tpl", "matter", "hook") if cfg.get(k)]
+        return (f"data layers {' '.join(parts) or 'none'}, {cfg.get('loader', 'dict')} loader, "
+                f"load #{cfg.get('loads', 1)}")
+    return str(cfg.get("kind"))
+
+
+# ---------------------------------------------------------------------------
 # one policy triple
 # ---------------------------------------------------------------------------
 
@@ -558,6 +637,10 @@ class Runner:
         # replay): the default policy is re-rendered with them set to nil and to ''
         self.nilroots: tuple[str, ...] = ()
         self._last: Any = None
+        # delivery / configuration of the case being judged (None = plain render args)
+        self.cfg: dict[str, Any] | None = None
+        self._plain: dict[str, Res] | None = None
+        self._cfg_args: Any = None
         self.keycache: dict[tuple[str, str], list[str]] = {}
 
     # -- environments / templates -------------------------------------------------
@@ -624,8 +707,73 @@ class Runner:
         if t is None:
             return None
         self._last = (t, data, mode)
+        self._cfg_args = (source, templates, flavour)
+        self._plain = None
         # data is deep-copied per render so a mutation in one run cannot leak
-        return {p: self.render(t[p], copy.deepcopy(data), mode, detail) for p in POLICIES}
+        plain = {p: self.render(t[p], copy.deepcopy(data), mode, detail) for p in POLICIES}
+        if not self.cfg:
+            return plain
+        # the same triple with the data delivered through other layers / a configured
+        # environment; judged by itself and against the plain delivery
+        rs = {p: self.render_cfg(p, source, templates, data, mode, flavour, self.cfg, detail)
+              for p in POLICIES}
+        self._plain = plain
+        return rs
+
+    ROOT = "root.liquid"
+
+    def render_cfg(self, policy: str, source: str, templates: dict[str, str],
+                   data: dict[str, Any], mode: str, flavour: str, cfg: dict[str, Any],
+                   detail: bool = False) -> Res:
+        """Render *source* loaded BY NAME through the configured loader, *loads* times,
+        with the data split over environment globals / template globals / loader matter /
+        a make_globals() override / render arguments.  The last load's render counts."""
+        from liquid2 import CachingDictLoader
+        from liquid2.loader import TemplateSource
+
+        data = copy.deepcopy(data)
+        layer = {k: {n: data.pop(n) for n in cfg.get(k, ()) if n in data}
+                 for k in ("env", "tpl", "matter", "hook")}
+        tpls = dict(templates)
+        tpls[self.ROOT] = source
+        base_loader = CachingDictLoader if cfg.get("loader") == "caching" else self.DictLoader
+        matter = layer["matter"]
+        root = self.ROOT
+
+        class Loader(base_loader):  # type: ignore[misc, valid-type]
+            def get_source(self, env, template_name, *, context=None, **kw):  # noqa: ANN001, ANN003
+                src = super().get_source(env, template_name, context=context, **kw)
+                if template_name == root and matter:
+                    return TemplateSource(src.source, src.name, src.uptodate, dict(matter))
+                return src
+
+        hookvars = layer["hook"]
+        base_env = self.envcls[flavour]
+
+        class Env(base_env):  # type: ignore[misc, valid-type]
+            def make_globals(self, globals=None):  # noqa: A002, ANN001
+                g = super().make_globals(globals)
+                return {**hookvars, **g}
+
+        try:
+            env = Env(loader=Loader(tpls), undefined=self.classes[policy],
+                      globals=layer["env"] or None)
+            _configure(env, cfg)
+        except Exception as e:  # noqa: BLE001
+            return Res("crash", None, type(e).__name__, "environment setup: " + str(e)[:60], Log())
+        res = None
+        for _ in range(int(cfg.get("loads", 1))):
+            try:
+                if mode == "async":
+                    t = drive(env.get_template_async(self.ROOT, globals=layer["tpl"] or None))
+                else:
+                    t = env.get_template(self.ROOT, globals=layer["tpl"] or None)
+            except Exception as e:  # noqa: BLE001
+                kind = "error" if isinstance(e, self.LiquidError) else "crash"
+                return Res(kind, None, type(e).__name__, "load: " + str(e)[:60], Log())
+            res = self.render(t, copy.deepcopy(data), mode, detail)
+        assert res is not None
+        return res
 
     def mechanism(self, clause: str, source: str, templates: dict[str, str],
                   data: dict[str, Any], mode: str, flavour: str) -> str:
@@ -644,6 +792,8 @@ class Runner:
                     return kind + ("-async" if mode == "async" else "")
             return text
         pol = clause.split("-")[0]
+        if "-under-" in clause and self.cfg:
+            return self._cfg_mechanism(clause, rs)
         if clause.endswith("-non-liquid-error"):
             return f"{rs[pol].err}@{rs[pol].where}"
         if clause == "default-missing-raises-where-nil-renders":
@@ -677,6 +827,23 @@ class Runner:
         return text
 
     # -- oracle ---------------------------------------------------------------------
+    def _cfg_mechanism(self, clause: str, rs: dict[str, Res]) -> str:
+        cfg = self.cfg or {}
+        if cfg.get("kind") != "layers":
+            return _cfg_label(cfg)
+        pol = clause.split("-")[0]
+        r = rs.get(pol, rs["default"])
+        names = [c[0] for c in r.log.created] or [c[0] for c in rs["default"].log.created]
+        where = "args"
+        for n in names:
+            for k in ("env", "tpl", "matter", "hook"):
+                if n in cfg.get(k, ()):
+                    where = k
+                    break
+            if where != "args":
+                break
+        return f"{where}-via-{cfg.get('loader', 'dict')}" + ("" if cfg.get("loads", 1) == 1 else "-reloaded")
+
     def judge(self, rs: dict[str, Res], complete: bool,
               nouse: tuple[str, ...] = ()) -> list[tuple[str, str]]:
         """List of (clause, what)."""
@@ -700,11 +867,30 @@ class Runner:
                 d2 = copy.deepcopy(data)
                 for name in self.nilroots:
                     d2[name] = val
-                alt.append(self.render(t["default"], d2, mode))
+                if self.cfg and self._cfg_args:
+                    src_, tpls_, fl_ = self._cfg_args
+                    alt.append(self.render_cfg("default", src_, tpls_, d2, mode, fl_, self.cfg))
+                else:
+                    alt.append(self.render(t["default"], d2, mode))
             if all(a.kind == "ok" for a in alt):
                 out.append(("default-missing-raises-where-nil-renders",
                             f"default policy raised {d.err} with {list(self.nilroots)} missing "
                             f"but renders {alt[0].out!r} with nil and {alt[1].out!r} with ''"))
+        if self._plain is not None and self.cfg:
+            # a variable present in ANY layer exists; a hook / constructor argument that
+            # behaves as documented changes nothing for JSON-like data
+            what = _cfg_label(self.cfg)
+            pl = self._plain
+            for p in ("strict", "falsy"):
+                if rs[p].kind == "undef" and pl[p].kind != "undef":
+                    out.append((f"{p}-undefined-error-under-{self.cfg.get('kind', 'cfg')}",
+                                f"{p} raised UndefinedError ({rs[p].msg}) with {what} but not "
+                                f"when everything is a render argument ({pl[p].kind}/{pl[p].out!r})"))
+            if (d.kind, d.out, d.err) != (pl["default"].kind, pl["default"].out, pl["default"].err):
+                out.append((f"default-differs-under-{self.cfg.get('kind', 'cfg')}",
+                            f"default policy ended {d.kind}/{d.err or d.out!r} with {what} but "
+                            f"{pl['default'].kind}/{pl['default'].err or pl['default'].out!r} when "
+                            "everything is a render argument"))
         for p in ("strict", "falsy"):
             r = rs[p]
             if r.kind == "ok":
@@ -780,9 +966,11 @@ class Runner:
     def case(self, source: str, templates: dict[str, str], data: dict[str, Any], mode: str,
              flavour: str, complete: bool, deleted: int, stmts: list[str] | None = None,
              record: bool = True, nouse: tuple[str, ...] = (),
-             nil: tuple[str, ...] = ()) -> list[tuple[str, str]]:
+             nil: tuple[str, ...] = (), cfg: dict[str, Any] | None = None
+             ) -> list[tuple[str, str]]:
         ctx = self.ctx
         self.nilroots = tuple(nil)
+        self.cfg = cfg
         rs = self.triple(source, templates, data, mode, flavour)
         if rs is None:
             return []
@@ -831,6 +1019,7 @@ class Runner:
                 ctx.count("nouse_falsy_ok_after_touch")
         if found:
             Runner._nil_for_witness = self.nilroots
+            Runner._cfg_for_witness = self.cfg
             self.report(found, source, templates, data, mode, flavour, complete, stmts, nouse)
             Runner._nil_for_witness = ()
         return found
@@ -889,6 +1078,8 @@ class Runner:
             w["nouse"] = list(nouse)
         if getattr(Runner, "_nil_for_witness", ()):
             w["nil"] = list(Runner._nil_for_witness)
+        if getattr(Runner, "_cfg_for_witness", None):
+            w["cfg"] = Runner._cfg_for_witness
         if orig is not None and orig != source:
             w["minimised_from"] = orig
         return w
@@ -935,7 +1126,8 @@ class Runner:
                     return src, tpls, dat
                 return src, tpls, data
             if len(src) <= 1500:
-                src = ddmin_str(src, lambda s: bad(s, templates, data), max_calls=260)
+                src = ddmin_str(src, lambda s: bad(s, templates, data),
+                                max_calls=60 if self.cfg else 260)
             # partials: drop, then shrink those that remain (fresh dict each time: env cache)
             tpls = _referenced(src, templates)
             if not bad(src, tpls, data):
@@ -1239,6 +1431,8 @@ def shards(tier: str, seed: int) -> list[dict[str, Any]]:
     specs += [{"kind": "gen", "i": i, "n": ng} for i in range(ng)]
     ns = 4 if tier == "quick" else 8
     specs += [{"kind": "sweep", "i": i, "n": ns} for i in range(ns)]
+    nl = 4 if tier == "quick" else 8
+    specs += [{"kind": "layers", "i": i, "n": nl} for i in range(nl)]
     return specs
 
 
@@ -1265,6 +1459,11 @@ def floors(tier: str) -> dict[str, int]:
         "empty_data_complete_triples": 60,
         "lambda_scope_triples": 300,
         "all_data_deleted_variants": 300,
+        "cfg_layers": 2000,
+        "cfg_json_hook": 30,
+        "cfg_translations": 60,
+        "cfg_babel_args": 120,
+        "set:layer_setups": 40,
         "nil_substitution_checks": 500,
         "set:local_binder_x_use": 600,
         "short_circuit_async": 1000,
@@ -1285,6 +1484,8 @@ def run_shard(spec: dict[str, Any], ctx: Ctx) -> None:
         _gen(r, spec, ctx)
     elif spec["kind"] == "sweep":
         _sweep(r, spec, ctx)
+    elif spec["kind"] == "layers":
+        _layers(r, spec, ctx)
 
 
 def _analysed(tpl: Any) -> list[list[Any]]:
@@ -1464,6 +1665,91 @@ def _sweep(r: Runner, spec: dict[str, Any], ctx: Ctx) -> None:
         ctx.sample(last)
 
 
+LAYER_PATTERNS = [
+    ("env",), ("tpl",), ("matter",), ("hook",), ("env", "tpl"), ("env", "args"),
+    ("tpl", "matter", "args"), ("env", "tpl", "matter", "hook", "args"), ("hook", "env"),
+    ("matter", "env"),
+]
+
+
+def _mentioned(src: str, tpls: dict[str, str], data: dict[str, Any]) -> list[str]:
+    texts = src + "\x00" + "\x00".join(_referenced(src, tpls).values())
+    return [k for k in data
+            if re.search(r"(?<![\w'\"-])" + re.escape(str(k)) + r"(?![\w'\"-])", texts)]
+
+
+def _layer_cfg(i: int, roots: list[str]) -> dict[str, Any]:
+    pat = LAYER_PATTERNS[i % len(LAYER_PATTERNS)]
+    cfg: dict[str, Any] = {"kind": "layers", "loader": ("dict", "caching")[(i // 2) % 2 if i % 5 else 1],
+                           "loads": (1, 2, 3, 2, 3)[i % 5]}
+    for j, name in enumerate(roots):
+        where = pat[(i + j) % len(pat)]
+        if where != "args":
+            cfg.setdefault(where, []).append(name)
+    return cfg
+
+
+def _layers(r: Runner, spec: dict[str, Any], ctx: Ctx) -> None:
+    """WHERE the data comes from, and configured filters: the same triples with the data
+    in environment globals / template globals / loader matter / a make_globals()
+    override, the root template loaded by name (DictLoader, CachingDictLoader) once,
+    twice, three times, sync and async; filters constructed with documented arguments."""
+    tpls = G.PARTIALS
+    sweep = G.sweep()
+    jobs: list[tuple[str, str, dict[str, str], dict[str, Any], bool, tuple, tuple, str, str]] = []
+    for e in sweep:
+        if e["shape"] or e["empty"] or e["extra"] or e["delete"]:
+            continue
+        kind, src = e["kind"], e["src"]
+        nil = ("nosuch",) if re.search(r"(?<![\w.])nosuch(?![\w])", src) and not e["nouse"] else ()
+        if "json" in src:
+            jobs.append((kind, src, tpls, G.base_data(), e["complete"], tuple(e["nouse"]), nil,
+                         "shopify", "json-hook"))
+        if re.search(r"\|\s*(t|gettext|ngettext|pgettext|npgettext)\b", src):
+            jobs.append((kind, src, tpls, G.base_data(), e["complete"], tuple(e["nouse"]), nil,
+                         "shopify", "translations"))
+        if re.search(r"\|\s*(currency|money\w*|decimal|datetime|unit)\b", src) and \
+                "with_currency" not in src and "without" not in src:
+            jobs.append((kind, src, tpls, G.base_data(), e["complete"], tuple(e["nouse"]), nil,
+                         "shopify", "babel-args"))
+        if e["complete"] or e["nouse"] or kind.startswith(("inner:", "output", "filter", "if-",
+                                                           "for", "render", "include", "assign")):
+            jobs.append((kind, src, tpls, G.base_data(), e["complete"], tuple(e["nouse"]), nil,
+                         "shopify", "layers"))
+    for c in corpus.valid_cases():
+        if c["data"]:
+            jobs.append(("corpus", c["template"], c["templates"], c["data"], False, (), (),
+                         "default", "layers"))
+    # thin the big families deterministically
+    keep = 3 if spec["tier"] == "quick" else 1
+    n_layers = 0
+    last = None
+    for ji, (kind, src, tp, data, complete, nouse, nil, flavour, what) in enumerate(jobs):
+        if ji % spec["n"] != spec["i"]:
+            continue
+        ctx.check_deadline()
+        if what == "layers":
+            n_layers += 1
+            if kind != "corpus" and not kind.startswith(("babel:", "lambda-scope:", "shape:")) \
+                    and n_layers % keep:
+                continue
+            cfg = _layer_cfg(ji, _mentioned(src, tp, data))
+        else:
+            cfg = {"kind": what}
+        mode = "async" if (ji // spec["n"]) % 2 else "sync"
+        if r.parse(src, tp, flavour) is None:
+            continue
+        r.case(src, tp, data, mode, flavour, complete, 0, [src], nouse=nouse, nil=nil, cfg=cfg)
+        ctx.count("configured_triples")
+        ctx.count("cfg_" + what.replace("-", "_"))
+        if what == "layers":
+            ctx.seen("layer_setups", f"{'+'.join(k for k in ('env', 'tpl', 'matter', 'hook') if cfg.get(k))}"
+                                     f"/{cfg['loader']}/load{cfg['loads']}/{mode}")
+        last = {"kind": "layers", "form": kind, "source": src, "cfg": cfg}
+    if last:
+        ctx.sample(last)
+
+
 def replay(wit: dict[str, Any], ctx: Ctx) -> None:
     r = Runner(ctx)
     src = wit["source"]
@@ -1475,6 +1761,10 @@ def replay(wit: dict[str, Any], ctx: Ctx) -> None:
     nouse = tuple(wit.get("nouse") or ())
     r.nilroots = tuple(wit.get("nil") or ())
     Runner._nil_for_witness = r.nilroots
+    r.cfg = wit.get("cfg") or None
+    Runner._cfg_for_witness = r.cfg
+    if r.cfg:
+        print(f"  delivery/configuration: {_cfg_label(r.cfg)}")
     rs = r.triple(src, tpls, data, mode, flavour, detail=True)
     print(f"replay C16: source={src!r} mode={mode} env={flavour} complete={complete}")
     print(f"  data={json.dumps(data, default=str)[:600]}")
